@@ -268,7 +268,7 @@ EXPR_REP = [
     '$a', 'f"{$a!r:>{$b}}"', '$a[$b]', '$a[$b:$c]', '$a($b, *$c, k=1, **$d)', '-$a', '$a + $b',
     '$a and $b', '$a < $b < $c', '$a in ($b, $c)', '$a if $b else $c', 'lambda x=$a: x + $b', '[$a, *$b]', '{$a: $b, **$c}',
     '[x for x in $a if $b]', '{x: $b for x in $a}', 'await $a', '(yield $a)', '(yield from $a)', '(w := $a)', 'len($a)',
-    '"%s" % ($a,)', '$a.append($b)', '[x async for x in $a]', 'isinstance($a, $b)', 'super()',
+    '"%s" % ($a,)', '$a.append($b)', '[x async for x in $a]', 'isinstance($a, $b)', 'super()', '"s"', '(x for x in $a)',
 ]
 # hosts for expression slots that are not already statement templates
 EXPR_HOSTS = ['$l = ' + e for e in EXPR if _SLOT.search(e)]
